@@ -285,6 +285,11 @@ func evalForm(c *cryptgen.Case, st *formStats) *harness.Fail {
 	}
 	enc, f := encryptLikeCLI(b.File, c)
 	if f != nil {
+		if c.SaizLimit() && f.Key == "C07|EncryptFragment|error on valid input" {
+			// a sample needs more sub-sample entries than saiz can size: refusing is correct
+			harness.Rec.Class("refused: sub-sample table beyond the saiz size limit")
+			return nil
+		}
 		return f
 	}
 	et, werr := boxwalk.WalkAll(enc)
